@@ -99,6 +99,9 @@ def generate(tier, rng):
     for ct in DOCUMENTED + ['application/json; charset=utf-8', 'text/plain']:
         for raw in RAW_BODIES:
             yield make_case(ct, None, STATUS_FNS[0], raw=raw)
+    for ct in DOCUMENTED + ['application/json; charset=utf-8', 'text/plain', None]:
+        for body in BODIES[:3]:
+            yield dict(make_case(ct, body, STATUS_FNS[0]), default_ct='application/json-rpc')
     for prefix in ('/rpc/v1', '/api/', '/a/b/c'):
         for ct in ('application/json', 'application/json-rpc; charset=utf-8', 'text/plain'):
             for body in BODIES[:4]:
@@ -223,7 +226,23 @@ def run_one(integration, c):
 
 
 def run_impl(c):
+    if c.get('default_ct'):
+        # another documented type made the default for replies (a supported configuration call): the gate still admits
+        # every documented request type
+        import pjrpc.common as pc
+        old = pc.DEFAULT_CONTENT_TYPE
+        pc.set_default_content_type(c['default_ct'])
+        try:
+            return {i: run_one(i, c) for i in INTEGRATIONS}
+        finally:
+            pc.set_default_content_type(old)
+            if getattr(pc, 'REQUEST_CONTENT_TYPES', None) != _REQ_TYPES:
+                pc.REQUEST_CONTENT_TYPES = _REQ_TYPES           # whatever the call did to the gate's list must not outlive the case
     return {i: run_one(i, c) for i in INTEGRATIONS}
+
+
+import pjrpc.common as _pc
+_REQ_TYPES = tuple(_pc.REQUEST_CONTENT_TYPES)
 
 
 def relevant(prop, c):
@@ -244,23 +263,27 @@ def region(prop, c):
     return None
 
 
-def _proj_one(o):
+def _proj_one(o, reply_ct='application/json'):
     r = o['reply']
     status = int(r['status'])
-    if status in (200, 201, 202, 210, 211, 212, 213, 214, 400, 404, 418, 500) and r['body'] is not None and status != 415 and r.get('content_type') in ('application/json', None) and r['body'][0] != 'x':
+    if status in (200, 201, 202, 210, 211, 212, 213, 214, 400, 404, 418, 500) and r['body'] is not None and status != 415 and r.get('content_type') in ('application/json', reply_ct, None) and r['body'][0] != 'x':
         relay = True
     else:
         relay = False
     execs = [e['m'] for e in o['events'] if e['e'] == 'exec']
     if relay:
-        return {'status': status, 'body': core.canon(r['body']), 'json_ct': r['content_type'] == 'application/json', 'exec': execs}
+        return {'status': status, 'body': core.canon(r['body']), 'json_ct': r['content_type'] == reply_ct, 'exec': execs}
     return {'status': status, 'body': None if status == 200 else 'ignored', 'exec': execs}
 
 
 def project(prop, c, out):
     if prop != 'C18':
         return None
-    return {i: _proj_one(out[i]) for i in INTEGRATIONS}
+    res = {i: _proj_one(out[i], c.get('default_ct') or 'application/json') for i in INTEGRATIONS}
+    if c.get('default_ct'):
+        for i in res:                  # the reply's own media type follows the configured default; the model fixes the library default
+            res[i].pop('json_ct', None)
+    return res
 
 
 def label(c, mo):
@@ -282,7 +305,11 @@ def oracle(prop, c, out):
     projs = {}
     for i in INTEGRATIONS:
         o = out[i]
-        p = _proj_one(o)
+        p = _proj_one(o, c.get('default_ct') or 'application/json')
+        if c.get('default_ct'):
+            # which JSON media type the reply itself carries under a changed default is outside the property (aiohttp always says
+            # application/json, flask / werkzeug follow the configured default); the gate and the relay are what is checked here
+            p['json_ct'] = True
         projs[i] = p
 
         def fail(key, what, expected=None):
